@@ -20,6 +20,7 @@ import (
 	"github.com/cnotch/ipchub/media/cache"
 	"github.com/cnotch/ipchub/stats"
 	"github.com/cnotch/ipchub/utils"
+	"github.com/cnotch/ipchub/utils/verifhook"
 	"github.com/cnotch/queue"
 	"github.com/cnotch/xlog"
 )
@@ -177,6 +178,7 @@ func (s *Stream) close(status int32) error {
 		status = StreamClosed
 	}
 	atomic.StoreInt32(&s.status, status)
+	verifhook.Point("media.close.marked", s)
 
 	// 关闭 hls
 	if s.tsMuxer != nil {
@@ -195,6 +197,7 @@ func (s *Stream) close(status int32) error {
 
 	s.consumptions.RemoveAndCloseAll()
 	s.cache.Reset()
+	verifhook.Point("media.close.swept", s)
 	return nil
 }
 
@@ -208,7 +211,9 @@ func (s *Stream) WriteRtpPacket(packet *rtp.Packet) error {
 	atomic.AddUint64(&s.size, uint64(packet.Size()))
 
 	keyframe := s.cache.CachePack(packet)
+	verifhook.Point("media.write.cached", s, packet)
 	s.consumptions.SendToAll(packet, keyframe)
+	verifhook.Point("media.write.sent", s, packet)
 
 	s.rtpDemuxer.WriteRtpPacket(packet)
 	return nil
@@ -235,7 +240,9 @@ func (s *Stream) WriteFlvTag(tag *flv.Tag) error {
 	}
 
 	keyframe := s.flvCache.CachePack(tag)
+	verifhook.Point("media.flvwrite.cached", s, tag)
 	s.flvConsumptions.SendToAll(tag, keyframe)
+	verifhook.Point("media.flvwrite.sent", s, tag)
 	return nil
 }
 
@@ -278,10 +285,13 @@ func (s *Stream) startConsume(consumer Consumer, packetType PacketType, extra st
 		cache = s.flvCache
 	}
 
+	verifhook.Point("media.join.begin", s, consumer)
 	if useGopCache {
 		c.sendGop(cache) // 新消费者，先发送gop缓存
 	}
+	verifhook.Point("media.join.snapshotted", s, consumer)
 	cs.Add(c)
+	verifhook.Point("media.join.registered", s, consumer)
 
 	go c.consume()
 	return c.cid
